@@ -300,7 +300,13 @@ impl<F: Float, L: Label + std::fmt::Debug> TreeNode<F, L> {
                 let score = w * left_score + (1.0 - w) * right_score;
 
                 // Take the midpoint from this value and the next one as split_value
-                split_value = (split_value + sorted_index.sorted_values[i + 1].1) / F::cast(2.0);
+                let next_value = sorted_index.sorted_values[i + 1].1;
+                split_value = (split_value + next_value) / F::cast(2.0);
+                // For neighbouring floats the midpoint can round onto the lower value; samples are
+                // routed with `x < split_value`, so the threshold has to lie above the current value
+                if split_value <= sorted_index.sorted_values[i].1 {
+                    split_value = next_value;
+                }
 
                 // override best indices when score improved
                 best = match best.take() {
@@ -347,7 +353,8 @@ impl<F: Float, L: Label + std::fmt::Debug> TreeNode<F, L> {
 
         for i in 0..data.nsamples() {
             if mask.mask[i] {
-                if data.records()[(i, best_feature_idx)] <= best_split_value {
+                // same rule as `make_prediction`, so every sample is predicted by the leaf it was fitted into
+                if data.records()[(i, best_feature_idx)] < best_split_value {
                     left_mask.mark(i);
                 } else {
                     right_mask.mark(i);
@@ -431,7 +438,7 @@ impl<F: Float, L: Label + std::fmt::Debug> TreeNode<F, L> {
 /// ### Structure
 /// A decision tree structure is a binary tree where:
 /// * Each internal node specifies a decision, represented by a choice of a feature and a "split value" such that all observations for which
-///     `feature <= split_value` is true fall in the left subtree, while the others fall in the right subtree.
+///     `feature < split_value` is true fall in the left subtree, while the others fall in the right subtree.
 ///
 /// * leaf nodes make predictions, and their prediction is the most popular label in the node
 ///
@@ -443,7 +450,7 @@ impl<F: Float, L: Label + std::fmt::Debug> TreeNode<F, L> {
 /// * Find the best split value for each feature of the observations belonging in the node;
 /// * Select the feature (and its best split value) that maximizes the quality of the split;
 /// * If the score of the split is sufficiently larger than the score of the unsplit node, then two child nodes are generated, the left one
-///   containing all observations with `feature <= split value` and the right one containing the rest.
+///   containing all observations with `feature < split value` and the right one containing the rest.
 /// * If no suitable split is found, the node is marked as leaf and its prediction is set to be the most common label in the node;
 ///
 /// The [quality score](SplitQuality) used can be specified in the [parameters](crate::DecisionTreeParams).
